@@ -153,9 +153,10 @@ def mkObj (σ : Store) (kind : String) (args : List String) : Option Obj :=
     | some (.str s) => some (.str { alloc := al, s := s })
     | _ => none
   | "rng", [a, b, c] => do
+    -- any `int64_t` start / stop / step whose `Range_Len` evaluates without signed overflow (`Rng.lenOk`)
     let a ← parseInt a; let b ← parseInt b; let c ← parseInt c
-    let small := fun (x : Int) => decide (-1000000 ≤ x) && decide (x ≤ 1000000)
-    if small a && small b && small c then some (.rng { start := a, stop := b, step := c, scratch := 0 }) else none
+    let r : Rng := { start := a, stop := b, step := c, scratch := 0 }
+    if inI64 a && inI64 b && inI64 c && r.lenOk then some (.rng r) else none
   | "slc", [base, a, b, c] => do
     let base ← parseId base; let a ← parseInt a; let b ← parseInt b; let c ← parseInt c
     let small := fun (x : Int) => decide (-1000000 ≤ x) && decide (x ≤ 1000000)
@@ -201,6 +202,10 @@ def parseOp (σ : Store) (name : String) (args : List String) : Option Op :=
     | _ => none
   | _, _ => none
 
+def smallRng (r : Rng) : Bool :=
+  let small := fun (x : Int) => decide (-1000000 ≤ x) && decide (x ≤ 1000000)
+  small r.start && small r.stop && small r.step
+
 /-- ops the histories exclude because the model does not describe what follows (the harness applies the same rules) -/
 def excluded (o : Obj) (op : Op) : Bool :=
   match o, op with
@@ -210,6 +215,7 @@ def excluded (o : Obj) (op : Op) : Bool :=
   | _, .print _ _ _ => true                       -- a directive first, into a sink that is not a String
   | .slc _, .mem _ => true
   | .zip _, .mem _ => true
+  | .rng r, .mem _ => !(smallRng r)               -- `Range_Mem` is modelled without overflow: small fields only
   | .lst l, .resize n => l.ty = .str && n > l.items.length   -- would create String slots with a NULL buffer
   | o, .concat (.seq vs) => (seqItems o).length + vs.length > 200    -- the histories keep containers small
   | .tab t, .set _ _ => t.items.length ≥ 300
